@@ -5,7 +5,51 @@ Property theorems for TSP.  Helper lemmas and proofs: Env/TSP/Lemmas.lean.
 reachable states (route without repeats, visited mask = set of the route, position = last city, …).
 -/
 import JumanjiModel.Env.TSP.Lemmas
+import JumanjiModel.Env.TSP.Bounds
 open Jm TSP
+
+namespace Props.C01
+/-- `reset` (any `n`, any sampled coordinates of the unit square): coordinates ∈ [0,1], trajectory ∈ [−1, n−1],
+action_mask ∈ {0,1} — every leaf listed in `obsBounds n` -/
+theorem tsp_reset_obs_in_bounds (n : Nat) (coords : List (List Rat)) (h : validDraw n coords) :
+    Jm.OB.InBounds (obsBounds n) (obsLeaves (reset n coords).2.obs) := TSP.reset_obs_in_bounds n coords h
+
+/-- every step with an action of the action spec (`0 ≤ a < n`, valid or not, terminal step included), any
+distance matrix, penalty and reward function, from a state satisfying `ObsInv n` -/
+theorem tsp_step_obs_in_bounds (n : Nat) (D : Dist) (pen : Rat) (dense : Bool) (s : State) (a : Int)
+    (ha : 0 ≤ a ∧ a < n) (h : ObsInv n s) :
+    Jm.OB.InBounds (obsBounds n) (obsLeaves (step n D pen dense s a).2.obs) :=
+  TSP.step_obs_in_bounds n D pen dense s a ha h
+
+/-- `ObsInv n` is established by `reset`, preserved by every step, and implied by `Feasible n` -/
+theorem tsp_reset_obsInv (n : Nat) (coords : List (List Rat)) (h : validDraw n coords) :
+    ObsInv n (reset n coords).1 := TSP.reset_obsInv n coords h
+theorem tsp_step_obsInv (n : Nat) (D : Dist) (pen : Rat) (dense : Bool) (s : State) (a : Int)
+    (ha : 0 ≤ a ∧ a < n) (h : ObsInv n s) : ObsInv n (step n D pen dense s a).1 :=
+  TSP.step_obsInv n D pen dense s a ha h
+theorem tsp_feasible_obsInv (n : Nat) (s : State) (hf : Feasible n s)
+    (hc : ∀ p ∈ s.coords, ∀ x ∈ p, 0 ≤ x ∧ x ≤ 1) : ObsInv n s := TSP.feasible_obsInv n s hf hc
+
+/-- the leaf `position` (not in `obsBounds`: finding F5): [−1, n−1] on every observation … -/
+theorem tsp_reset_position_in_bounds (n : Nat) (coords : List (List Rat)) (h : validDraw n coords) :
+    Jm.OB.InBounds (positionBounds n) (obsLeaves (reset n coords).2.obs) :=
+  TSP.reset_position_in_bounds n coords h
+theorem tsp_step_position_in_bounds (n : Nat) (D : Dist) (pen : Rat) (dense : Bool) (s : State) (a : Int)
+    (ha : 0 ≤ a ∧ a < n) (h : ObsInv n s) :
+    Jm.OB.InBounds (positionBounds n) (obsLeaves (step n D pen dense s a).2.obs) :=
+  TSP.step_position_in_bounds n D pen dense s a ha h
+/-- … inside the declared `DiscreteArray(num_cities)` = [0, n−1] on every observation returned by `step` from a
+feasible state, and equal to −1 (outside it) on every reset observation -/
+theorem tsp_step_position_declared (n : Nat) (D : Dist) (pen : Rat) (dense : Bool) (s : State) (a : Nat)
+    (hf : Feasible n s) (ha : a < n) :
+    0 ≤ (step n D pen dense s a).2.obs.position ∧ (step n D pen dense s a).2.obs.position < n :=
+  TSP.step_position_declared n D pen dense s a hf ha
+theorem tsp_reset_position_outside_declared (n : Nat) (coords : List (List Rat)) :
+    (reset n coords).2.obs.position = -1 := TSP.reset_position n coords
+
+example : validDraw 3 [[0, 0], [1, 0], [1/2, 1]] := by decide +kernel
+example : ObsInv 3 ⟨[[0, 0], [1, 0], [1, 1]], 1, [false, true, false], [1, -1, -1], 1⟩ := by decide +kernel
+end Props.C01
 
 namespace Props.C04
 /-- the observed mask bit of city `a` is set exactly when the rules allow visiting it -/
